@@ -25,6 +25,8 @@ MGR_METHODS = ['is_connected', 'pre_disconnect', 'disconnect',
                'basic_leave_room', 'basic_enter_room', 'get_rooms',
                'sid_from_eio_sid', 'eio_sid_from_sid', 'get_namespaces']
 RACERS = ['leave', 'sdisc', 'lose', 'enter', 'close_room', 'emit2']
+# a room operation on the very client that is being disconnected
+SELF_RACERS = ['enter_self', 'enter_self_other']
 
 
 class World:
@@ -88,6 +90,15 @@ class World:
             return lambda: sio.enter_room(self.sids[3], ROOM, namespace=NS)
         if name == 'close_room':
             return lambda: sio.close_room(ROOM, namespace=NS)
+        if name in ('enter_self', 'enter_self_other'):
+            room = ROOM if name == 'enter_self' else 'other'
+
+            def enter():
+                try:
+                    sio.enter_room(self.sids[2], room, namespace=NS)
+                except (ValueError, KeyError):
+                    pass     # "not connected": the disconnect won the race
+            return enter
         raise ValueError(name)
 
 
@@ -180,6 +191,86 @@ def explore(ctx, racers, limit, bound=None):
     return n, choices is None
 
 
+def run_self_race(ctx, racers, choices, rng, bound=None):
+    """A client is disconnected (namespace level; its transport stays up)
+    while another thread adds it to a room.  Whatever the order, once both
+    have finished a disconnected client is in no room: rooms() is empty and
+    no later emit to any room reaches it."""
+    sp = rng.choice([None, 0.05, 0.2]) if rng is not None else None
+    sched = SC.ThreadScheduler(choices=choices, rng=rng,
+                               preemption_bound=bound, switch_prob=sp)
+    w = World(sched)
+    for r in racers:
+        sched.spawn(r, w.actor(r))
+    trace = sched.run()
+    ctx.count('self_race_schedules')
+    wit = {'part': 'self_race', 'racers': racers,
+           'choices': [c for _, c in trace],
+           'labels': [[a, lbl] for a, lbl in sched.labels][-80:]}
+    if sched.aborted:
+        ctx.violation(None, 'room-operation race: schedule did not '
+                      'complete: %s' % sched.aborted, wit)
+        return trace
+    errs = list(sched.errors) + w.d.errors()
+    if errs:
+        wit['errors'] = [{'actor': e.get('actor'), 'exc': e.get('exc'),
+                          'tb': (e.get('tb') or '')[-1500:]}
+                         for e in errs[:3]]
+        ctx.violation(None, '%s: %s raised in %s' % (
+            '+'.join(racers), errs[0].get('exc'),
+            errs[0].get('actor') or 'the server'), wit)
+        return trace
+    sio = w.d.sio
+    sid = w.sids[2]
+    connected = sio.manager.is_connected(sid, NS)
+    for t in w.T:
+        t.drain()
+    n0 = len(w.T[2].packets)
+    # unwrapped from here on: sequential probes
+    for room in (ROOM, 'other', None):
+        sio.emit('probe', {'r': str(room)}, to=room, namespace=NS)
+    w.T[2].drain()
+    got = [p for p in w.T[2].packets[n0:] if p['type'] == R.EVENT]
+    try:
+        rooms = list(sio.rooms(sid, namespace=NS))
+    except Exception:
+        rooms = []
+    wit.update(connected=connected, rooms=[str(r) for r in rooms],
+               probes_received=[p['data'] for p in got])
+    if not connected and (rooms or got):
+        # known finding: the join slipped in after basic_disconnect() had
+        # listed the client's rooms and before it left the first of them (the
+        # namespace room, whose membership enter_room consults).  A join that
+        # succeeds *after* the namespace room was left is something else.
+        leaves = 0
+        key = None
+        for actor, lbl in sched.labels:
+            if actor == 0 and lbl == 'mgr.basic_leave_room':
+                leaves += 1
+            if actor == 1 and lbl == 'mgr.basic_enter_room':
+                key = 'room-join-races-disconnect' if leaves <= 1 else None
+                break
+        wit['leave_calls_begun_before_the_join'] = leaves
+        ctx.violation(key, 'a client disconnected while another thread '
+                      'added it to a room is still in rooms %r and received '
+                      '%d later emits' % (wit['rooms'], len(got)), wit)
+        return trace
+    ctx.case(('self_race', tuple(racers), connected, len(rooms),
+              tuple(c for _, c in trace)[:40]), None)
+    return trace
+
+
+def explore_self(ctx, racers, limit):
+    choices = []
+    n = 0
+    while choices is not None and n < limit and \
+            not ctx.too_many_violations():
+        trace = run_self_race(ctx, racers, choices, None)
+        n += 1
+        choices = SC.next_schedule(trace)
+    return n, choices is None
+
+
 def run_part(ctx, seconds):
     import time
     t_end = time.time() + seconds
@@ -196,13 +287,23 @@ def run_part(ctx, seconds):
         n, complete = explore(ctx, racers, limit,
                               bound=None if len(racers) == 1 else 3)
         summary['+'.join(racers)] = {'schedules': n, 'complete': complete}
+    for racers in (['sdisc', 'enter_self'], ['sdisc', 'enter_self_other']):
+        if time.time() > t_end + 5 or ctx.too_many_violations():
+            break
+        n, complete = explore_self(ctx, racers,
+                                   200 if ctx.tier == 'quick' else 5000)
+        summary['+'.join(racers)] = {'schedules': n, 'complete': complete}
     while time.time() < t_end and not ctx.too_many_violations():
         rng = ctx.case_rng(7 * 10 ** 7 + k)
         racers = list(rng.choice(jobs))
         run_schedule(ctx, racers, [], rng)
+        if k % 4 == 0:
+            run_self_race(ctx, ['sdisc', rng.choice(SELF_RACERS)], [], rng)
         k += 1
 
 
 def replay(ctx, w):
     wi = w['witness']
+    if wi.get('part') == 'self_race':
+        return run_self_race(ctx, wi['racers'], wi['choices'], None)
     run_schedule(ctx, wi['racers'], wi['choices'], None)
